@@ -250,7 +250,14 @@ def main():
                                         "(every point OF G1/G2) still holds; the agent flagged this itself. Kept here only as a record.")
         d = "/verif/seeded/%s" % name
         os.makedirs(d, exist_ok=True)
-        shutil.copy(src + "/patch.diff", d + "/patch.diff")
+        if os.path.exists(src + "/patch.rebased.diff"):
+            # the change touched lines that a later "fix:" commit in /repo rewrote: the same change carried over to the fixed tree
+            shutil.copy(src + "/patch.rebased.diff", d + "/patch.diff")
+            shutil.copy(src + "/patch.diff", d + "/patch.orig.diff")
+            meta["rebased"] = "patch.orig.diff is the agent's change against the tree before fix 1d35e99 (C13); patch.diff is the same change carried over to the fixed tree"
+            json.dump(meta, open(d + "/meta.json", "w"), indent=1)
+        else:
+            shutil.copy(src + "/patch.diff", d + "/patch.diff")
         for f in ("demo.rs", "notes.md"):
             if os.path.exists(src + "/" + f):
                 shutil.copy(src + "/" + f, d + "/" + f)
